@@ -136,10 +136,20 @@ pub fn render(c: &NCase) -> FileSet {
             body += &format!("    <xs:import namespace=\"{}\" schemaLocation=\"{}\"/>\n", esc(URI_POOL[c.files[*j].uri]), fname(*j));
         }
         let mut members = String::from("<xs:element name=\"own\" type=\"xs:string\"/>");
+        if !no_own {
+            // references through the file's own prefix (type= and ref=)
+            members += &format!("<xs:element ref=\"tns:L{i}\" minOccurs=\"0\"/><xs:element name=\"leaf\" type=\"tns:S{i}\" minOccurs=\"0\"/>");
+        }
         for j in &imports {
             members += &format!("<xs:element name=\"m{j}\" type=\"p{j}:T{j}\" minOccurs=\"0\"/>");
         }
         body += &format!("    <xs:complexType name=\"T{i}\"{nested}><xs:sequence>{members}</xs:sequence></xs:complexType>\n");
+        body += &format!("    <xs:element name=\"L{i}\"><xs:complexType><xs:sequence><xs:element name=\"w\" type=\"xs:int\"/></xs:sequence><xs:attribute name=\"a{i}\" type=\"xs:string\"/></xs:complexType></xs:element>\n    <xs:simpleType name=\"S{i}\"><xs:restriction base=\"xs:string\"><xs:maxLength value=\"9\"/></xs:restriction></xs:simpleType>\n");
+        // a type derived from each imported type that has only attributes of its own
+        for j in &imports {
+            body += &format!("    <xs:complexType name=\"D{i}x{j}\"><xs:complexContent><xs:extension base=\"p{j}:A{j}\"><xs:attribute name=\"extra\" type=\"xs:string\"/></xs:extension></xs:complexContent></xs:complexType>\n");
+        }
+        body += &format!("    <xs:complexType name=\"A{i}\"><xs:attribute name=\"id{i}\" type=\"xs:string\"/></xs:complexType>\n");
         let own_member_type = if no_own { "xs:string".to_string() } else { format!("tns:T{i}") };
         body += &format!("    <xs:element name=\"E{i}\"><xs:complexType><xs:sequence><xs:element name=\"v\" type=\"{own_member_type}\"/></xs:sequence></xs:complexType></xs:element>\n");
         let schema = format!("<xs:schema xmlns:xs=\"http://www.w3.org/2001/XMLSchema\"{root} targetNamespace=\"{}\" elementFormDefault=\"qualified\">\n{body}  </xs:schema>", esc(own));
@@ -223,7 +233,8 @@ pub fn judge(scan: &Scan) -> Vec<Fail> {
             fails.push(Fail { sig: "one-uri-two-modules".into(), detail: format!("{u} is spread over {ms:?}") });
         }
     }
-    // (4) every prefix used by a field or an envelope is declared (somewhere in the file)
+    // (4) every prefix used by a field or an envelope is declared: somewhere in the file, and on the
+    // struct that uses it (any struct may be the root of a serialized document)
     for s in &scan.structs {
         let mut used: Vec<&String> = s.fields.iter().filter_map(|f| f.ya.prefix.as_ref()).collect();
         if let Some(p) = &s.ya.prefix {
@@ -232,6 +243,26 @@ pub fn judge(scan: &Scan) -> Vec<Fail> {
         for p in used {
             if !p2u.contains_key(p) {
                 fails.push(Fail { sig: "prefix-used-but-never-declared".into(), detail: format!("{}: {p:?}", s.ident) });
+            } else if !s.ya.namespaces.iter().any(|(k, _)| k == p) {
+                fails.push(Fail { sig: "prefix-used-but-not-declared-on-the-struct".into(), detail: format!("{}: {p:?} (declared elsewhere as {:?})", s.ident, p2u.get(p)) });
+            }
+        }
+    }
+    // (5) all components of a namespace sit in its module: a member typed mod_x::Name must find Name in mod_x
+    let mut defined: BTreeSet<(String, String)> = BTreeSet::new();
+    for s in &scan.structs {
+        defined.insert((s.module.join("::"), s.ident.clone()));
+    }
+    for (m, n, _) in &scan.aliases {
+        defined.insert((m.join("::"), n.clone()));
+    }
+    for s in &scan.structs {
+        for f in &s.fields {
+            let t = f.ty.trim_start_matches("Option<").trim_start_matches("Vec<").trim_end_matches('>');
+            if let Some((module, name)) = t.rsplit_once("::") {
+                if module.starts_with("mod_") && !defined.contains(&(module.to_string(), name.to_string())) {
+                    fails.push(Fail { sig: "member-type-not-in-the-module-it-names".into(), detail: format!("{}.{}: {}", s.ident, f.ident, f.ty) });
+                }
             }
         }
     }
